@@ -2810,10 +2810,14 @@ BOOL binn_set_string(binn *item, const char *str, size_t len) {
   if ((item == NULL) || (str == NULL)) {
     return FALSE;
   }
-  item->ptr = strndup(str, len);
-  if (item->ptr == NULL) {
+  char *copy = malloc_fn(len + 1);
+  if (copy == NULL) {
     return FALSE;
   }
+  memcpy(copy, str, len);
+  copy[len] = '\0';
+  item->ptr = copy;
+  item->size = (int) len; // keep bytes after an embedded zero: AddValue takes strlen() only when size is 0
   item->freefn = free_fn;
   item->type = BINN_STRING;
   return TRUE;
